@@ -227,3 +227,37 @@ func VerifCSVCellConcrete() {
 	back, perr := decimal.NewFromString(s)
 	v.Assert(perr == nil && back.Equal(d), "csv-cell-is-exact-amount")
 }
+
+// VerifCSVRows: C17 kernel D2. The CSV rendering carries the amounts in the same
+// row and column positions as the table: rows without any content are skipped,
+// continuation rows (empty first cell) are kept.
+func VerifCSVRows() {
+	tbl := New(1, 1, 2)
+	tbl.AddSeparatorRow()
+	tbl.AddRow().AddText("Account", Center).AddText("Comm", Center).AddText("2020-01-31", Center).AddText("2020-02-29", Center)
+	tbl.AddSeparatorRow()
+	a := []decimal.Decimal{decimal.RequireFromString("12.12345678"), decimal.RequireFromString("-3"), decimal.RequireFromString("0"), decimal.RequireFromString("1000000.5")}
+	first := v.Choice("first", 2) // which kind of cell starts the continuation row
+	tbl.AddRow().AddIndented("Assets", 0).AddText("CHF", Left).AddDecimal(a[0]).AddDecimal(a[1])
+	cont := tbl.AddRow()
+	if first == 0 {
+		cont.AddEmpty()
+	} else {
+		cont.AddText("", Left)
+	}
+	cont.AddText("USD", Left).AddDecimal(a[2]).AddDecimal(a[3])
+	tbl.AddEmptyRow()
+	tbl.AddRow().AddIndented("Bank", 2).FillEmpty()
+	tbl.AddSeparatorRow()
+	var sb strings.Builder
+	err := (&CSVRenderer{}).Render(tbl, &sb)
+	v.Assert(err == nil, "csv-render-no-error")
+	lines := strings.Split(strings.TrimSuffix(sb.String(), "\n"), "\n")
+	want := []string{"Account,Comm,2020-01-31,2020-02-29", "Assets,CHF,12.12345678,-3", ",USD,0,1000000.5", "Bank,,,"}
+	v.Assert(len(lines) == len(want), "csv-has-one-record-per-row-with-content")
+	if len(lines) == len(want) {
+		for i := range want {
+			v.Assert(lines[i] == want[i], "csv-record-carries-the-row-cells-in-position")
+		}
+	}
+}
